@@ -82,7 +82,9 @@ Theorem late_results :
   (* mutators: the done branch has no statements — the call does nothing *)
   forallb (fun m => match done_ret "Bar" m with Some "" => true | _ => false end)
     ["SetRefill"; "EnableTriggerComplete"; "SetTotal"; "SetCurrent"; "IncrInt64"; "EwmaIncrInt64"; "EwmaSetCurrent"; "Abort"] = true /\
-  done_ret "Progress" "UpdateBarPriority" = Some "".
+  done_ret "Progress" "UpdateBarPriority" = Some "" /\
+  (* the helper behind the early refresh goroutine gives up when the container is done *)
+  done_ret "Progress" "traverseBars" = Some "".
 Proof. vm_compute. repeat split. Qed.
 
 (* ---------- goroutines ---------- *)
